@@ -205,8 +205,83 @@ mod verif_search {
         println!("SEARCH-DONE property=c05 no failing input in {} inputs", n);
     }
 
+    /// C08 (prediction under arbitrary parameters, BOUNDED): produce corrections under a forced parameter vector; either
+    /// Err, or the parameters read back are the ones written and the original stream is reconstructed
+    fn check_c08(stream: &[u8], p: &crate::preflate_parameter_estimator::PreflateParameters) -> Option<String> {
+        use crate::cabac_codec::{PredictionDecoderCabac, PredictionEncoderCabac};
+        use crate::preflate_parameter_estimator::PreflateParameters;
+        use cabac::vp8::{VP8Reader, VP8Writer};
+        let contents = match parse_deflate(stream, 0) { Ok(c) => c, Err(_) => return None };
+        let mut buf = Vec::new();
+        let mut enc = PredictionEncoderCabac::new(VP8Writer::new(&mut buf).unwrap());
+        p.write(&mut enc);
+        if encode_mispredictions(&contents, p, &mut enc).is_err() { return None; }
+        enc.finish();
+        let mut dec = PredictionDecoderCabac::new(VP8Reader::new(std::io::Cursor::new(&buf[..])).unwrap());
+        let q = match PreflateParameters::read(&mut dec) { Ok(q) => q, Err(e) => return Some(format!("C08: parameters cannot be read back: {}", e)) };
+        if &q != p { return Some(format!("C08: parameters read back differ: {:?}", q)); }
+        match decode_mispredictions(&q, PreflateInput::new(&contents.plain_text), &mut dec) {
+            Err(e) => Some(format!("C08: corrections produced under {:?} cannot be decoded: {}", p, e)),
+            Ok((back, _)) => if back[..] != stream[..contents.compressed_size] { Some(format!("C08: reconstruction under {:?} differs", p)) } else { None },
+        }
+    }
+    fn search_c08(seed: u64) {
+        use crate::add_policy_estimator::DictionaryAddPolicy;
+        use crate::hash_algorithm::HashAlgorithm;
+        use crate::preflate_parameter_estimator::{PreflateHuffStrategy, PreflateParameters, PreflateStrategy};
+        use crate::preflate_parse_config::MatchingType;
+        use crate::token_predictor::TokenPredictorParameters;
+        let mut rng = Rng(seed.wrapping_mul(0x9E3779B97F4A7C15) ^ 0xC08);
+        let hashes = [HashAlgorithm::None, HashAlgorithm::Zlib { hash_mask: 0x7fff, hash_shift: 5 }, HashAlgorithm::Zlib { hash_mask: 0x1ff, hash_shift: 3 },
+            HashAlgorithm::MiniZFast, HashAlgorithm::Libdeflate4, HashAlgorithm::Libdeflate4Fast, HashAlgorithm::ZlibNG, HashAlgorithm::RandomVector, HashAlgorithm::Crc32cHash];
+        let policies = [DictionaryAddPolicy::AddAll, DictionaryAddPolicy::AddFirst(0), DictionaryAddPolicy::AddFirst(4), DictionaryAddPolicy::AddFirst(255),
+            DictionaryAddPolicy::AddFirstAndLast(1), DictionaryAddPolicy::AddFirstAndLast(32), DictionaryAddPolicy::AddFirstExcept4kBoundary, DictionaryAddPolicy::AddFirstWith32KBoundary];
+        let matchings = [MatchingType::Greedy, MatchingType::Lazy { good_length: 4, max_lazy: 4 }, MatchingType::Lazy { good_length: 32, max_lazy: 258 }, MatchingType::Lazy { good_length: 8, max_lazy: 16 }];
+        let mut streams: Vec<Vec<u8>> = Vec::new();
+        for _ in 0..40 { streams.push(gen_stream(&mut rng).0); }
+        for f in ["compressed_zlib_level1.deflate", "compressed_zlib_level9.deflate", "compressed_libdeflate_level6.deflate"] {
+            let mut d = read_file(f); d.truncate(d.len()); streams.push(d);
+        }
+        let mut n = 0;
+        for (si, stream) in streams.iter().enumerate() {
+            let big = stream.len() > 10000;
+            let rounds = if big { 10 } else { 36 };
+            for k in 0..rounds {
+                let p = PreflateParameters {
+                    huff_strategy: [PreflateHuffStrategy::Dynamic, PreflateHuffStrategy::Mixed, PreflateHuffStrategy::Static][(k + si) % 3],
+                    predictor: TokenPredictorParameters {
+                        matches_to_start_detected: rng.below(2) == 0, very_far_matches_detected: rng.below(2) == 0,
+                        window_bits: [9u32, 12, 15][rng.below(3) as usize],
+                        strategy: [PreflateStrategy::Default, PreflateStrategy::Default, PreflateStrategy::RleOnly, PreflateStrategy::HuffOnly, PreflateStrategy::Store][rng.below(5) as usize],
+                        nice_length: [3u32, 8, 32, 128, 258][rng.below(5) as usize],
+                        add_policy: policies[rng.below(policies.len() as u32) as usize],
+                        max_token_count: [1u16, 7, 16383, 16385, 32767, 65535][rng.below(6) as usize],
+                        zlib_compatible: rng.below(2) == 0,
+                        max_dist_3_matches: [0u16, 4096, 32768, 65535][rng.below(4) as usize],
+                        matching_type: matchings[rng.below(matchings.len() as u32) as usize],
+                        max_chain: [1u32, 4, 32, 256, 4096][rng.below(5) as usize],
+                        min_len: [0u32, 3, 4][rng.below(3) as usize],
+                        hash_algorithm: hashes[(k + si) % hashes.len()],
+                    },
+                };
+                n += 1;
+                let (s2, p2) = (stream.clone(), p);
+                match std::panic::catch_unwind(move || check_c08(&s2, &p2)) {
+                    Ok(None) => {}
+                    Ok(Some(m)) => { println!("FAILING-INPUT property=c08 what={:?} stream_len={} stream={}", m, stream.len(), hex(&stream[..stream.len().min(600)])); panic!("search: {}", m); }
+                    Err(_) => { println!("FAILING-INPUT property=c08 what=\"panic under {:?}\" stream_len={} stream={}", p, stream.len(), hex(&stream[..stream.len().min(600)])); panic!("search: panic"); }
+                }
+            }
+        }
+        println!("SEARCH-DONE property=c08 no failing input in {} (stream, parameter vector) pairs", n);
+    }
+
     #[test]
     fn verif_search() {
+        if std::env::var("VERIF_SEARCH").map(|v| v == "c08p").unwrap_or(false) {
+            let seed: u64 = std::env::var("VERIF_SEED").ok().and_then(|s| s.parse().ok()).unwrap_or(1);
+            return search_c08(seed);
+        }
         if std::env::var("VERIF_SEARCH").map(|v| v == "c05").unwrap_or(false) {
             let seed: u64 = std::env::var("VERIF_SEED").ok().and_then(|s| s.parse().ok()).unwrap_or(1);
             return search_c05(seed);
@@ -215,6 +290,12 @@ mod verif_search {
         let c03 = std::env::var("VERIF_SEARCH").map(|v| v == "c03").unwrap_or(false);
         let seed: u64 = std::env::var("VERIF_SEED").ok().and_then(|s| s.parse().ok()).unwrap_or(1);
         let mut rng = Rng(seed.wrapping_mul(0x9E3779B97F4A7C15) ^ 0xC07);
+        if c02 {
+            for f in ["compressed_zlib_level1.deflate", "compressed_zlib_level6.deflate", "compressed_flate2_level9.deflate", "compressed_libdeflate_level1.deflate", "compressed_libdeflate_level9.deflate", "compressed_minizoxide_level1.deflate", "compressed_zlib_level0.deflate"] {
+                let d = read_file(f);
+                if let Some(m) = check_c02(&d) { println!("FAILING-INPUT property=c02 what={:?} stream=samples/{}", m, f); panic!("search: {}", m); }
+            }
+        }
         let n = if c02 { 2500 } else { 6000 };
         for k in 0..n {
             let (stream, text, desc) = gen_stream(&mut rng);
